@@ -434,7 +434,7 @@ func modeLin(seed int64, n int, exhaustive bool, bruteMax int) {
 		emit(line)
 	}
 	sum := map[string]interface{}{
-		"mode": "lin", "summary": true, "seed": seed, "rounds": n,
+		"mode": "lin", "summary": true, "seed": seed, "rounds": n, "pred_kind_strict": predKindStrict,
 		"ok": counts["ok"], "illegal": counts["illegal"], "unknown": counts["unknown"],
 		"ops": totalOps, "overlap_total": totalOverlap, "distinct_histories": len(digests),
 		"lookups": totalLookups, "nonempty_lookups": totalNonempty, "overlap_graph_ops_total": totalOverlapG,
@@ -469,6 +469,7 @@ func modeLinFile(path string, exhaustive bool, bruteMax int) {
 	}
 	line := checkHistory(es, exhaustive, bruteMax)
 	line["mode"] = "linfile"
+	line["pred_kind_strict"] = predKindStrict
 	line["file"] = path
 	line["ops"] = len(es)
 	emit(line)
